@@ -132,7 +132,7 @@ PROPS = {
     # after a disconnect everything held for the connection must be gone: on these families the cache-release rules count as C11 too
     "C11": dict(run=gateway_run(["cache", "access", "win-evict", "thr-reset1"], ["close", "sockClosed"], also=("C09",))),
     "C04": dict(run=gateway_run(["access", "cache", "win-recheck", "win-indirect"], ["mres", "cres"])),
-    "C05": dict(run=tables.combine(gateway_run(["access", "win-recheck"], ["mreq"]), tables.tables_run(["calllist"], "CanCall"))),
+    "C05": dict(run=tables.combine(gateway_run(["access", "win-recheck"], ["mreq"]), tables.tables_run(["calllist", "access"], "CanCall / access verdict"))),
     "C12": dict(run=tables.combine(tables.tables_run(["pattern", "coldiff", "modeldiff"], "reset matching / diff"),
                                    gateway_run(["stream", "win-load", "win-alias"], ["mreq", "cev"], also=("C01",)))),
     "C06": dict(run=gateway_run(["access", "stream", "win-recheck", "win-load"], ["note", "cev"])),
@@ -158,7 +158,8 @@ TEXT = {
     "C02": _t("After every client frame of every replayed schedule TLC checks on the trace that the reference client has no dangling reference and that every event is applicable (held resource, kind, index range); the readiness replay (SubReadyTrace.tla against SubReadyOps) requires that a subscription is collected only after all its references are ready or visited, that a ready callback fires - and a subscription is marked sent - only when nothing reachable is still loading.", TECH),
     "C03": _t("spec/SubQueue.tla (one subscription's event queue under every interleaving of events, loading, new references, re-check triggers, access answers and the client leaving) is model-checked exhaustively for NoLossNoReorder and IdleDrained; every queue note of the replayed gateway schedules is replayed per subscription object through the same operators (spec/SubQueueTrace.tla: path of every event, processed only when not queueing and only as the received event or the queue head, flags and lengths). At the client boundary: sequence-numbered custom and change events - order, duplicates, gaps at delivery time, completeness at quiescence per (client, resource) holding period, and no event for a resource the client does not hold (before it is handed over / after release).",
               "TLC exhaustive on SubQueue.tla + per-note conformance (SubQueueTrace.tla) + observer rules on gateway traces"),
-    "C04": _t("Access ledger in the observer: every response that hands a root resource to a client must be backed by a get grant answered for that connection that no processed trigger has invalidated.", TECH),
+    "C04": _t("Access ledger in the observer: every response that hands a root resource to a client must be backed by a get grant answered for that connection that no processed trigger has invalidated. Table access: every access response over 6 x 8 x 5 member options (get / call / error present, null, of the wrong JSON type; result absent, null, an array) through the real decoder and CanGet / CanCall, checked by TLC against spec/fn/ResAccess.tla (an error response is never a grant, whatever its code).",
+              TECH + " + function table of access verdicts checked by TLC against spec/fn/ResAccess.tla"),
     "C05": _t("Every call forwarded to a service must be backed by a valid grant allowing the method; every access/call/auth request must carry the connection's current token.", TECH),
     "C06": _t("spec/SubQueue.tla is model-checked for TriggerKept / DeferredOnlyWhileQueueing / Rechecked (a trigger is never forgotten and leads to an access request or the end of the subscription); SubQueueTrace.tla checks on every gateway trace that a re-check is never started while queueing, is deferred only while queueing and that the deferred flag equals the model's. At the boundary, after each processed trigger on a directly subscribed resource: an access request sent after the trigger follows, nothing handed over after the trigger is delivered before the verdict, a refusal ends in an unsubscribe event with the reason; after a token change every direct subscription is re-checked.",
               "TLC exhaustive on SubQueue.tla + per-note conformance (SubQueueTrace.tla) + observer rules on gateway traces"),
@@ -525,6 +526,9 @@ def lifecycle_model(ctx):
 PROPS["C20"] = dict(run=tables.combine(lifecycle_model, gateway_run(["life"], ["stop", "stopped", "sockClosed", "openRefused"], also=("C01",))))
 TEXT["C20"] = _t("spec/Lifecycle.tla (Start / Stop critical sections with three concurrent Stop callers incl. the MQ closed handler) is model-checked exhaustively: one cause per run on the stop channel and it is the winner's, no socket open and nothing accepted after a run ended, a winning Stop terminates, and - with a messaging client whose Close hands over what it still holds in its receive buffer - nothing is ever handed to the cache's closed work channel (the swapped order is a negative check). On the real gateway: Stop and loss of the messaging connection are injected at arbitrary steps of TLC-generated schedules (with requests, loads and evictions outstanding, gates held, and optionally an event and / or a response delivered by the harness messaging client during Close, as the NATS adapter does); the observer requires every socket closed, the cause on the stop channel, completion within the fake-time bounds, refusal while stopped, a working restart, and no panic.",
                  "TLC exhaustive on Lifecycle.tla + TLC-generated stop / connection-loss schedules replayed on the real gateway, traces validated by the observer spec")
+
+# C04: what an access response grants is a function table of its own (an error response is never a grant)
+PROPS["C04"] = dict(run=tables.combine(PROPS["C04"]["run"], tables.tables_run(["access"], "access verdict")))
 
 # C15: which value objects are rejected ("ambiguous or unknown value objects") is a function table of its own
 PROPS["C15"] = dict(run=tables.combine(PROPS["C15"]["run"], tables.tables_run(["values"], "value decoding")))
